@@ -436,11 +436,19 @@ async fn run_scenario(sc: Value, sock: PathBuf, meaning: Map<String, Value>) -> 
     ccfg.socket_path = Some(sock.clone());
     let open_inv = tick(&sh);
     let dummy: SocketAddr = format!("127.0.0.1:{}", if transport == "unix" { 1 } else { port }).parse().expect("addr");
-    let (wb, _on_disco) = match wcl::try_connect(ccfg, dummy).await {
-        Ok(x) => x,
-        Err(e) => {
-            subsys.request_global_shutdown();
-            return json!({"error": format!("client could not connect: {e}")});
+    // (the endpoint may need a moment to come up: a refused connection attempt is not a session)
+    let mut attempt = 0;
+    let (wb, _on_disco) = loop {
+        match wcl::try_connect(ccfg.clone(), dummy).await {
+            Ok(x) => break x,
+            Err(e) => {
+                attempt += 1;
+                if attempt > 250 {
+                    subsys.request_global_shutdown();
+                    return json!({"error": format!("client could not connect: {e}")});
+                }
+                tokio::time::sleep(Duration::from_millis(20)).await;
+            }
         }
     };
     let cid_str = wb.client_id().to_owned();
